@@ -94,6 +94,20 @@ func Spec(prop, tier string) *core.CheckSpec {
 			Stub:   []string{"the order in which mutator and traversers take turns (tape)", "limits of the contexts pushed around single assignments"},
 			Assume: []string{"hash-seed dependent slot layout cannot be seeded; it varies with the worker process only"},
 		}
+	case "C14":
+		bs := []core.Batch{{Engine: "conf", Mode: "conf", Runs: n(6000, 400000), Millis: ms(30000, 500000)}, {Engine: "conf", Mode: "nort", Runs: n(3000, 200000), Millis: ms(20000, 300000)}}
+		for _, v := range []string{"noregpool", "nocontpool", "nopools", "safepool"} {
+			bs = append(bs, core.Batch{Engine: "conf", Mode: "conf", Variant: v, DiffBase: "std", Runs: n(6000, 400000), Millis: ms(30000, 500000), Workers: 4})
+		}
+		bs = append(bs, core.Batch{Engine: "conf", Mode: "nort", Variant: "noquotas", DiffBase: "std", Runs: n(3000, 200000), Millis: ms(20000, 300000)})
+		return &core.CheckSpec{
+			Property: "C14", Level: "exploration",
+			Rule:    "the same tape (G-rich program + pool-stress templates: deep recursion, error unwinding through many frames, abandoned coroutines, closures outliving frames, re-entrant calls from Go; CPU-limit kill; hand-off schedule; WithRegSetMaxAge knob) is executed by the worker built with each tag set {noregpool, nocontpool, noregpool+nocontpool, safepool, noquotas (programs that do not use the runtime library)} and by the default build; the canonical event logs, results and error values must be identical run by run. non-trivial = a pool-stress template, a kill or a non-default scheduling decision was present",
+			Batches: bs,
+			Real:    realAll,
+			Stub:    []string{"goroutine scheduling decisions (controlled scheduler)", "host callbacks"},
+			Assume:  []string{"only runs executed by both builds within the time budget are compared (counted in the evidence)"},
+		}
 	case "C07":
 		return &core.CheckSpec{
 			Property: "C07", Level: "exploration",
